@@ -108,12 +108,20 @@ fn is_u16(v: &dyn ValueObj, x: u16) -> bool { v.as_any().downcast_ref::<u16>() =
 fn is_u32(v: &dyn ValueObj, x: u32) -> bool { v.as_any().downcast_ref::<u32>() == Some(&x) }
 
 /// two events first, so that a correct `index` is 2 (and not 0 or the number of events of a kind)
-/// a tracker that has already recorded an EARLIER build of 1 or 2 events before the build under test starts: indices and
-/// query helpers must refer to positions in the CURRENT stream (build_start clears), not to a count over the tracker's lifetime
-fn prefixed() -> EventTracker {
+fn prefixed() -> EventTracker { let mut t = EventTracker::default(); t.build_start(); t.build_end(); t }
+
+/// the index stored in an event is its position in the CURRENT stream (build_start clears the stream), also when the tracker has
+/// recorded an earlier build: not a count over the tracker's lifetime
+#[kani::proof]
+fn c17_event_tracker_index_is_position_after_an_earlier_build() {
+  let k = A(kani::any()); let v: u8 = kani::any();
   let mut t = EventTracker::default();
-  t.build_start(); if kani::any() { t.build_end(); }
-  t.build_start(); t.build_end(); t
+  t.build_start(); t.build_end();
+  t.build_start();
+  t.require_start(&k, &v);
+  let ev = t.slice();
+  assert!(ev.len() == 2 && ev[0].is_build_start());
+  match &ev[1] { Event::RequireStart(d) => assert!(d.index == 1), _ => assert!(false) }
 }
 
 #[kani::proof]
